@@ -1,2 +1,190 @@
+//! C10: a Compute with breadth n against the sequential reference written from the property statement: child i starts at the next
+//! operation with a copy of the parent's stack plus the word i, an empty memory, the parent's repeat state and read-only access to the
+//! parent's memory, and runs until ComputeEnd, Halt or the end of the program; afterwards the parent's memory is its old memory followed
+//! by the children's memories in index order, its stack is unchanged apart from the consumed breadth, it resumes at the furthest position
+//! reached by any child; a child error, breadth below 1, nested Compute or combined memory above the limit fails the parent.
+//! Children of the reference are run one after another on the real VM (verified separately); the fork / join is what is compared.
+use crate::refsem::PreState;
 use crate::Ctx;
-pub fn run(_ctx: &Ctx) {}
+use essential_asm as asm;
+use essential_types::{solution::Solution, ContentAddress, PredicateAddress, Word};
+use essential_vm::{Access, GasLimit, Memory, Stack, Vm};
+use std::sync::Arc;
+
+fn push(w: Word) -> asm::Op {
+    asm::Stack::Push(w).into()
+}
+
+fn access() -> Access {
+    let sol = Solution {
+        predicate_to_solve: PredicateAddress { contract: ContentAddress([0; 32]), predicate: ContentAddress([0; 32]) },
+        predicate_data: vec![],
+        state_mutations: vec![],
+    };
+    Access::new(Arc::new(vec![sol]), 0)
+}
+
+#[derive(Debug, PartialEq)]
+struct Outcome {
+    ok: bool,
+    gas: u64,
+    pc: usize,
+    stack: Vec<Word>,
+    memory: Vec<Word>,
+    halt: bool,
+}
+
+const MEM_LIMIT: usize = 10240;
+
+/// Reference: sequential fork / join around the real VM.
+fn reference(ops: &[asm::Op], c: usize) -> Outcome {
+    let st = (PreState::default(), PreState::default());
+    let cost = |_: &asm::Op| 1u64;
+    let fail = |vm: &Vm| Outcome { ok: false, gas: 0, pc: vm.pc, stack: vec![], memory: vec![], halt: false };
+    let mut vm = Vm::default();
+    // prefix up to (excluding) the Compute op
+    let mut gas = match vm.exec_ops(&ops[..c], access(), &st, &cost, GasLimit::UNLIMITED) {
+        Ok(g) => g,
+        Err(_) => return fail(&vm),
+    };
+    gas += 1; // the Compute op itself
+    let mut stack: Vec<Word> = vm.stack.clone().into();
+    let Some(n) = stack.pop() else { return fail(&vm) };
+    if n < 1 || !vm.parent_memory.is_empty() {
+        return fail(&vm);
+    }
+    let parent_mem: Vec<Word> = vm.memory.clone().into();
+    let mut joined = parent_mem.clone();
+    let mut pc = c;
+    let mut halt = vm.halt;
+    for i in 0..n {
+        let mut cs = stack.clone();
+        cs.push(i);
+        let Ok(cstack) = Stack::try_from(cs) else { return fail(&vm) };
+        let mut child = Vm {
+            pc: c + 1,
+            stack: cstack,
+            memory: Memory::new(),
+            parent_memory: vec![Arc::new(vm.memory.clone())],
+            repeat: vm.repeat.clone(),
+            ..Default::default()
+        };
+        match child.exec_ops(ops, access(), &st, &cost, GasLimit::UNLIMITED) {
+            Ok(g) => gas += g,
+            Err(_) => return fail(&vm),
+        }
+        let cm: Vec<Word> = child.memory.clone().into();
+        joined.extend(cm);
+        pc = pc.max(child.pc);
+        halt |= child.halt;
+    }
+    if joined.len() > MEM_LIMIT {
+        return fail(&vm);
+    }
+    vm.stack = Stack::try_from(stack).unwrap();
+    vm.memory = Memory::try_from(joined).unwrap();
+    vm.pc = pc;
+    vm.halt = halt;
+    if !halt {
+        match vm.exec_ops(ops, access(), &st, &cost, GasLimit::UNLIMITED) {
+            Ok(g) => gas += g,
+            Err(_) => return fail(&vm),
+        }
+    }
+    Outcome { ok: true, gas, pc: vm.pc, stack: vm.stack.clone().into(), memory: vm.memory.clone().into(), halt: vm.halt }
+}
+
+fn real(ops: &[asm::Op]) -> Result<Outcome, String> {
+    let st = (PreState::default(), PreState::default());
+    let cost = |_: &asm::Op| 1u64;
+    let r = std::panic::catch_unwind(std::panic::AssertUnwindSafe(|| {
+        let mut vm = Vm::default();
+        let r = vm.exec_ops(ops, access(), &st, &cost, GasLimit::UNLIMITED);
+        (r.map_err(|e| format!("{e}")), vm)
+    }));
+    match r {
+        Err(_) => Err("the VM panicked".into()),
+        Ok((Ok(g), vm)) => Ok(Outcome { ok: true, gas: g, pc: vm.pc, stack: vm.stack.clone().into(), memory: vm.memory.clone().into(), halt: vm.halt }),
+        Ok((Err(_), vm)) => Ok(Outcome { ok: false, gas: 0, pc: vm.pc, stack: vec![], memory: vec![], halt: false }),
+    }
+}
+
+pub fn run(ctx: &Ctx) {
+    use asm::{Alu, Compute, Memory as M, ParentMemory as PM, Stack as S, TotalControlFlow as T};
+    // parent prefixes: (name, ops) - stack and memory the parent has when it forks
+    let prefixes: Vec<(&str, Vec<asm::Op>)> = vec![
+        ("empty", vec![]),
+        ("stack3", vec![push(40), push(41), push(42)]),
+        ("stack3+mem2", vec![push(40), push(41), push(42), push(2), M::Alloc.into(), S::Pop.into(), push(7), push(0), M::Store.into(), push(8), push(1), M::Store.into()]),
+        ("mem9941", vec![push(5), push(9941), M::Alloc.into(), S::Pop.into()]),
+        ("mem10240", vec![push(5), push(10240), M::Alloc.into(), S::Pop.into()]),
+    ];
+    // child bodies (the child's stack is the parent's stack plus its index on top)
+    let bodies: Vec<(&str, Vec<asm::Op>)> = vec![
+        ("nop", vec![]),
+        ("alloc_index_plus_1_store_index", vec![S::Dup.into(), push(1), Alu::Add.into(), M::Alloc.into(), M::Store.into()]),
+        ("alloc1_store_index", vec![push(1), M::Alloc.into(), M::Store.into()]),
+        ("alloc100", vec![S::Pop.into(), push(100), M::Alloc.into(), S::Pop.into()]),
+        ("swap_inherited", vec![S::Pop.into(), S::Swap.into()]),
+        ("add_inherited", vec![S::Pop.into(), Alu::Add.into()]),
+        ("pop_inherited", vec![S::Pop.into(), S::Pop.into(), S::Pop.into()]),
+        ("read_parent_memory", vec![S::Pop.into(), push(1), M::Alloc.into(), push(0), PM::Load.into(), S::Swap.into(), M::Store.into()]),
+        ("read_parent_range_empty", vec![S::Pop.into(), push(0), push(0), PM::LoadRange.into()]),
+        ("index_dependent_jump", vec![push(2), S::Swap.into(), T::JumpIf.into(), push(1), M::Alloc.into(), S::Pop.into()]),
+        ("halt_if_index", vec![T::HaltIf.into(), push(1), M::Alloc.into(), S::Pop.into()]),
+        ("halt", vec![S::Pop.into(), T::Halt.into()]),
+        ("error_if_index_0", vec![push(1), S::Swap.into(), Alu::Div.into(), S::Pop.into()]),
+        ("nested_compute", vec![S::Pop.into(), push(1), Compute::Compute.into(), S::Pop.into(), Compute::ComputeEnd.into()]),
+        ("nested_compute_index_1", vec![push(3), S::Swap.into(), T::JumpIf.into(), push(1), T::HaltIf.into(), push(2), Compute::Compute.into(), S::Pop.into(), Compute::ComputeEnd.into()]),
+    ];
+    let breadths: Vec<Word> = vec![1, 2, 3, 0, -1, 40];
+    let suffixes: Vec<(&str, Vec<asm::Op>)> = vec![("none", vec![]), ("push9", vec![push(9)]), ("end+push9", vec![Compute::ComputeEnd.into(), push(9)])];
+    for (pn, pre) in &prefixes {
+        for (bn, body) in &bodies {
+            for &n in &breadths {
+                for (sn, suf) in &suffixes {
+                    // with_end: whether the child region is closed by ComputeEnd (else children run to the end of the program)
+                    for with_end in [true, false] {
+                        if !with_end && *sn != "none" {
+                            continue;
+                        }
+                        if (*pn == "mem9941" || *pn == "mem10240") && n == 40 && !ctx.thorough {
+                            continue;
+                        }
+                        let id = format!("compute/{pn}/{bn}/{n}/{sn}/{}", with_end as u8);
+                        if !ctx.want(&id) {
+                            continue;
+                        }
+                        let mut ops = pre.clone();
+                        ops.push(push(n));
+                        let c = ops.len();
+                        ops.push(Compute::Compute.into());
+                        ops.extend(body.clone());
+                        if with_end {
+                            ops.push(Compute::ComputeEnd.into());
+                        }
+                        ops.extend(suf.clone());
+                        let want = reference(&ops, c);
+                        match real(&ops) {
+                            Err(e) => ctx.fail(&id, "Compute == sequential fork / join", format!("{e}; reference {:?}; ops {:?}", short(&want), ops)),
+                            Ok(got) => {
+                                let same = if want.ok { got == want } else { !got.ok };
+                                if same {
+                                    ctx.pass();
+                                } else {
+                                    ctx.fail(&id, "Compute behaves as n children run one after another: child state, joined memory in index order, parent stack, resume position, failure conditions",
+                                        format!("VM {:?} but reference {:?}; ops {:?}", short(&got), short(&want), ops));
+                                }
+                            }
+                        }
+                    }
+                }
+            }
+        }
+    }
+}
+
+fn short(o: &Outcome) -> String {
+    let m = if o.memory.len() > 12 { format!("[{} words, last {:?}]", o.memory.len(), &o.memory[o.memory.len() - 4..]) } else { format!("{:?}", o.memory) };
+    format!("ok={} gas={} pc={} stack={:?} memory={} halt={}", o.ok, o.gas, o.pc, o.stack, m, o.halt)
+}
